@@ -90,6 +90,12 @@ fn recipe_spec(rng: &mut Rng, w: &World, name_only_timers: bool) -> RecipeSpec {
         if rng.chance(1, 4) { s.push_str("\n\n"); }
         if rng.chance(1, 12) { s.push_str("\n= Part two =\n\n"); }
     }
+    // the quantity written on an intermediate-preparation reference is an ingredient quantity like any other
+    if rng.chance(1, 6) {
+        let q = q_spec(rng, w);
+        s.push_str(&format!("\n\nRest it.\n\nThen fold in @&({})dough{{{}}}. ", rng.pick_str(&["~1", "~2", "=~1"].split_last().map(|(_, r)| r).unwrap_or(&["~1"])), q.text()));
+        ings.push(Some(q));
+    }
     RecipeSpec { text: s, ingredients: ings, declared_servings }
 }
 
